@@ -1163,6 +1163,39 @@ pub fn run_c14(tier: Tier, seed: u64) -> i32 {
             0, 9, 99, 999_999, (1 << 32) - 2, (1 << 53) - 2, 999_999_999_999_999_7, 9_999_999_999_999_996, 10_000_000_000_000_000,
             99_999_999_999_999_990, (1 << 63) - 3, 9_999_999_999_999_999_990, u64::MAX - 40,
         ];
+        // one namespace, every decimal boundary of the counter: the ids issued around 10^k must
+        // all be distinct from each other and from the ids of the first calls
+        {
+            let ns = Uuid::from_u128(0x00c1_4000_0000_0000_0000_0000_0000_0001u128 ^ seed as u128);
+            let mut all: HashMap<Uuid, u64> = HashMap::new();
+            let mut ranges: Vec<u64> = vec![0];
+            let mut p10: u64 = 10;
+            for _ in 1..=19 {
+                ranges.push(p10.saturating_sub(12));
+                p10 = p10.saturating_mul(10);
+            }
+            for k in [16u32, 32, 53, 63] {
+                ranges.push((1u64 << k) - 12);
+            }
+            for st in ranges {
+                let js = format!("{{\"namespace\":\"{}\",\"counter\":{}}}", ns, st);
+                if let Ok(g) = serde_json::from_str::<UuidGenerator>(&js) {
+                    for j in 0..24u64 {
+                        let id = g.next();
+                        rep.evaluations += 1;
+                        if let Some(prev) = all.insert(id, st + j) {
+                            if prev != st + j {
+                                rep.violation(
+                                    format!("calls number {} and {} on generators with the same namespace returned the same id {}", prev, st + j, id),
+                                    json!({"engine": "idgen-restored", "property": "C14", "namespace": ns.to_string(), "call_a": prev, "call_b": st + j, "id": id.to_string()}),
+                                );
+                            }
+                        }
+                    }
+                }
+            }
+            rep.add("ids_compared_across_counter_ranges", all.len() as u64);
+        }
         let mut restored = 0u64;
         for st in starts {
             for _ in 0..3 {
